@@ -404,10 +404,20 @@ def fuzz_sessions(n: int, seed: int, with_close: bool, kinds=vloop.CLIENTS):
 
 
 def judge(chk: Check, wd, logs, meta, prefix: str, tag: str):
-    inp, outp = wd / f"{tag}.json", wd / f"{tag}-verdicts.json"
-    inp.write_text(json.dumps(logs))
-    _, v = run_trace_tlc("Trace_Client", "Trace_Client.cfg", inp, outp, name=f"Trace_Client-{tag}", heap="3g",
-                         extra_env={"FOCUS": prefix})        # the monitor records the clauses of this property only
+    # the logs are judged in six TLC processes side by side (contiguous parts; verdict indices are shifted back)
+    from concurrent.futures import ThreadPoolExecutor
+    nparts = max(1, min(6, len(logs) // 100))
+    size = -(-len(logs) // nparts)
+
+    def part(j):
+        inp, outp = wd / f"{tag}-{j}.json", wd / f"{tag}-{j}-verdicts.json"
+        inp.write_text(json.dumps(logs[j * size:(j + 1) * size]))
+        _, vj = run_trace_tlc("Trace_Client", "Trace_Client.cfg", inp, outp, name=f"Trace_Client-{tag}-{j}", heap="2g",
+                              extra_env={"FOCUS": prefix})   # the monitor records the clauses of this property only
+        return vj
+    with ThreadPoolExecutor(nparts) as ex:
+        vs = list(ex.map(part, range(nparts)))
+    v = {"n": sum(x["n"] for x in vs), "bad": [dict(b, k=b["k"] + j * size) for j, x in enumerate(vs) for b in x["bad"]]}
     chk.gate(v["n"] == len(logs), "Trace_Client did not judge every log")
     other = {}
     for b in v["bad"]:
@@ -428,19 +438,28 @@ def judge(chk: Check, wd, logs, meta, prefix: str, tag: str):
 
 def conformance(chk: Check, wd, conf, tag: str):
     """are the recorded logs behaviours of the implementation-shaped model?  (DRIFT only)"""
-    total = accepted = 0
+    from concurrent.futures import ThreadPoolExecutor
     jobs = [(regime, cfg, serial) for regime, cfg in (("ok", "none"), ("slow", "slow"), ("slowC", "slowC"), ("slowD", "slowD"))
             for serial in (False, True)]          # logs of the serial client are behaviours of the model with CfgWrite = TRUE
-    for regime, cfg, serial in jobs:
+
+    def one(job):
+        regime, cfg, serial = job
         logs = [c for c in conf if c[0] == regime and c[2].startswith("waveshare") == serial]
         if not logs:
-            continue
+            return logs, None, None
         sfx = "-serial" if serial else ""
         inp, outp = wd / f"{tag}-conf-{regime}{sfx}.json", wd / f"{tag}-conf-{regime}{sfx}-out.json"
         inp.write_text(json.dumps([c[1] for c in logs]))
         r = run_tlc("Trace_ClientModel", f"Trace_ClientModel_{cfg}{'_serial' if serial else ''}.cfg",
                     env={"IN_FILE": str(inp), "OUT_FILE": str(outp)}, workers=1, name=f"Trace_ClientModel-{tag}-{regime}{sfx}",
                     timeout=3000, deadlock=False, heap="3g", dfs=True)
+        return logs, r, outp
+    with ThreadPoolExecutor(4) as ex:
+        results = list(ex.map(one, jobs))
+    total = accepted = 0
+    for logs, r, outp in results:
+        if r is None:
+            continue
         chk.gate(not r.violated and outp.exists(), f"Trace_ClientModel failed: {r.error_text(20)}")
         res = json.loads(outp.read_text())
         for c, x in zip(logs, res):
